@@ -273,3 +273,106 @@ class TimeTheory(ObjTheory):
 
     def ifexp_value(self, ex, node):
         return None
+
+
+class OffsetTheory(TimeTheory):
+    """ODLDecoder.decode_datetime: the zone-offset suffix.  The match groups are symbolic: sign in {+1,-1}, hour and
+    minute non-negative integers (their text -> int() gives the integer; an absent minute group is the default 0);
+    the result of the inner super().decode_datetime is a value of symbolic kind with a symbolic prior zone."""
+    name = "T_off"
+
+    def make_self(self, ex, fv):
+        return ObjV("self", cls=fv.cls_name, info={"oid": "self"})
+
+    def initial_field(self, ex, recv, attr):
+        if recv.role == "self" and attr == "grammar":
+            return ObjV("grammar")
+        return super().initial_field(ex, recv, attr)
+
+    def global_name(self, ex, name):
+        if name in ("re", "timedelta", "timezone", "datetime", "time", "isinstance", "int"):
+            return FuncV(name)
+        return super().global_name(ex, name)
+
+    def fresh_of_kind(self, kind, nm):
+        if kind == "text":
+            return ObjV("text", info={"id": nm})
+        return super().fresh_of_kind(kind, nm)
+
+    def getattr(self, ex, recv, attr):
+        if isinstance(recv, ObjV) and recv.role == "grammar":
+            return OPAQUE_STR
+        if isinstance(recv, ObjV) and recv.role in ("match", "gd", "text", "decoded", "grp"):
+            return BoundM(recv, attr)
+        if isinstance(recv, FuncV) and recv.name == "re":
+            return FuncV("re." + attr)
+        return super().getattr(ex, recv, attr)
+
+    def is_none(self, ex, a):
+        if isinstance(a, ObjV) and a.role == "match":
+            return z3.Not(a.info["ok"])
+        if isinstance(a, ObjV) and a.role in ("decoded", "gd", "text", "grp"):
+            return False
+        return super().is_none(ex, a)
+
+    def getitem(self, ex, recv, idx):
+        if isinstance(recv, ObjV) and recv.role == "gd" and isinstance(idx, Conc):
+            k = idx.v
+            if k == "dt":
+                return ObjV("text", info={"id": "group_dt"})
+            if k == "sign":
+                return ObjV("grp", info={"kind": "sign", "val": z3.Const("group_sign", I)})
+            if k in ("hour", "minute"):
+                return ObjV("grp", info={"kind": "digits", "val": z3.Const("group_" + k, I)})
+            raise PyRaise(ExcV("KeyError"))
+        return super().getitem(ex, recv, idx)
+
+    def eq(self, ex, a, b):
+        for x, y in ((a, b), (b, a)):
+            if isinstance(x, ObjV) and x.role == "grp" and x.info["kind"] == "sign" and isinstance(y, Conc):
+                return x.info["val"] == (1 if y.v == "+" else -1 if y.v == "-" else 0)
+        return super().eq(ex, a, b)
+
+    def binop(self, ex, op, a, b):
+        if (isinstance(op, ast.Add) and isinstance(a, ObjV) and a.role == "grp" and a.info["kind"] == "sign"
+                and isinstance(b, ObjV) and b.role == "grp" and b.info["kind"] == "digits"):
+            return ObjV("grp", info={"kind": "signed", "val": a.info["val"] * b.info["val"]})   # '-' + '05' -> int() gives -5
+        return super().binop(ex, op, a, b)
+
+    def call(self, ex, fv, args, kwargs, node):
+        if isinstance(fv, FuncV):
+            n = fv.name
+            if n == "re.fullmatch":
+                return ObjV("match", info={"ok": z3.Const("offset_pattern_matches", B)})
+            if n == "int" and isinstance(args[0], ObjV) and args[0].role == "grp":
+                if args[0].info["kind"] == "sign":
+                    raise PyRaise(ExcV("ValueError"))
+                return Z("int", args[0].info["val"])
+            if n == "timedelta":
+                return super().call(ex, FuncV("datetime.timedelta"), args, kwargs, node)
+            if n == "timezone":
+                td = args[0]
+                if not (isinstance(td, ObjV) and td.role == "td"):
+                    raise Untranslatable("timezone(<non-timedelta>)")
+                # timezone() refuses offsets of a day or more
+                if ex.branch(z3.And(td.info["off"] > -86400, td.info["off"] < 86400), "offset-within-a-day"):
+                    return ObjV("tzobj", info={"off": td.info["off"]})
+                raise PyRaise(ExcV("ValueError"))
+            if n == "isinstance":
+                v, t = args
+                names = [x.name for x in (t.items if isinstance(t, TupV) else [t])]
+                if isinstance(v, ObjV) and v.role == "decoded" and set(names) == {"datetime", "time"}:
+                    return Z("bool", v.info["temporal"])
+                raise Untranslatable("isinstance")
+        return super().call(ex, fv, args, kwargs, node)
+
+    def call_method(self, ex, recv, name, args, kwargs):
+        if isinstance(recv, ObjV) and recv.role == "match" and name == "groupdict":
+            return ObjV("gd")
+        if isinstance(recv, ObjV) and recv.role == "text" and name == "endswith":
+            return Z("bool", z3.Const(f"{recv.info['id']}_ends_with_Z_or_z", B))
+        if isinstance(recv, ObjV) and recv.role == "decoded" and name == "replace" and set(kwargs) == {"tzinfo"}:
+            tz = kwargs["tzinfo"]
+            if isinstance(tz, ObjV) and tz.role == "tzobj":
+                return ObjV("decoded", info=dict(recv.info, zone=tz.info["off"], rezoned=True))
+        return super().call_method(ex, recv, name, args, kwargs)
